@@ -3,7 +3,7 @@ from vlib import Case
 from props import _journal as J
 
 PROP_FILE = "Properties/C06.v"
-RULE = ("stream protect: a case is a sequence of BUILD / OPEN / FLIP / UPDATE / GET_REMOTE ops (toy keys: bytes compared; real rustls keys: "
+RULE = ("stream protect: a case is a sequence of BUILD / OPEN / FLIP / RESEAL-WITH-RESERVED-BITS / UPDATE / GET_REMOTE ops (toy keys: bytes compared; real rustls keys: "
         "outcomes compared); non-trivial = some packet built with payload+tag exactly at the 20-byte sampling minimum, or with a packet-number "
         "length >= 3, or under key phase 1 / a key generation >= 1; distinct by hash of the op list")
 TRUSTED_BASE = [
@@ -29,11 +29,12 @@ MANIFEST = {
             "bijection on packets (protect then unprotect and unprotect then protect are identities, sample taken 4 bytes after the pn offset); a packet "
             "built for any data header, pn length 1..4, key phase and body with pn_len+|body|+16 >= 20 is recovered (header, pn, key phase, body) by the "
             "receive path; ANY datagram other than the one sent (every single-bit flip included), or the same one presented under another key or decoded to "
-            "another packet number, is not accepted (no frame is dispatched) unless it contains a fresh AEAD forgery — every bit of the packet is covered by "
+            "another packet number, is dropped (no frame is dispatched, no connection error) unless it contains a fresh AEAD forgery — every bit of the packet is covered by "
             "the AAD, the ciphertext or the mask-determined fields. OneRttPacketKeys as a machine over key generations: get_remote never panics; the receiver "
             "selects the sender's generation if phase_out() runs between updates; without it (nobody calls it) the statement is REFUTED at the second "
-            "update (finding F20) and holds for generations <= 1. Finding F45: the reserved-bit check runs before authentication, so a tampered packet "
-            "can raise a connection error instead of being dropped. Model tied to the Rust by stream `protect`.",
+            "update (finding F20) and holds for generations <= 1. After the repair of finding F45 (reserved bits judged only on an authenticated "
+            "packet) every such datagram is DROPPED, never answered with a connection error (c06_tamper_discarded), while an authentic packet with "
+            "reserved bits set still gives PROTOCOL_VIOLATION. Model tied to the Rust by stream `protect`.",
     "note": "Level is PARTIAL by design: cryptography is an assumption (ideal AEAD as Section hypotheses), real rustls keys are exercised only by the "
             "harness/oracle (round trips and all single-bit flips of Initial and 1-RTT packets) outside the model; the toy cipher shared by model and harness "
             "ties only the layout. The parse of the protected first byte/length field in the round-trip theorem is a hypothesis discharged by computation on "
@@ -179,6 +180,15 @@ def oracle(case, obs):
         elif tag == 2:
             if last is not None and v[0] != -1:
                 flips ^= {a[0]}
+        elif tag == 11:
+            # the same packet made again by a key holder who sets reserved bits (harness code, toy keys)
+            if last is not None and last["mode"] == "toy":
+                if v[0] != last["len"]:
+                    return "op11: op %d re-sealed packet of %d bytes, expected %d" % (k, v[0], last["len"])
+                flips = set()
+                last["rsv"] = a[0] & (0x18 if last["ty"] == 3 else 0x0c)
+            elif v[0] != -1:
+                return "op11: op %d re-sealed a packet that is not a toy packet" % k
         elif tag in (4, 8, 10):
             if last is None:
                 continue
@@ -198,8 +208,15 @@ def oracle(case, obs):
             intact = not flips
             pn_ok = exp >= 0 and code_decode(last["w"], last["trunc"], exp) == last["pn"]
             dl_ok = last["ty"] != 3 or dlrx == last["dl"]
-            if tag == 4 and v[0] == 3 and (not intact):
-                return "connerr: op %d a tampered packet (bits %s flipped) raises a connection error (PROTOCOL_VIOLATION) instead of being dropped" % (k, sorted(flips)[:4])
+            authentic = intact and samekey and samehp and pn_ok and dl_ok
+            rsv = last.get("rsv", 0)
+            if v[0] == 3 and not (authentic and rsv):
+                return "connerr: op %d a packet that is not authentic (%s) raises a connection error (PROTOCOL_VIOLATION) instead of being dropped" % (
+                    k, ("bits %s flipped" % sorted(flips)[:4]) if not intact else "other key, header key, packet number or dcid length")
+            if authentic and rsv:
+                if v[0] != 3:
+                    return "reserved: op %d an authentic packet with reserved bits %#x set is not answered with a connection error (outcome %s)" % (k, rsv, line[:40])
+                continue
             if intact and samekey and samehp and pn_ok and dl_ok:
                 honest = True
                 if tag == 8:
@@ -262,8 +279,6 @@ def oracle(case, obs):
 
 
 def classify(case, msg, obs):
-    if msg.startswith("connerr:"):
-        return "F45"
     if msg.startswith("keyphase:"):
         # F20: sender at generation >= 2, no phase_out ever called on the receiver
         import re
@@ -296,7 +311,7 @@ def nontrivial(case):
 
 def hist(case):
     lab = []
-    names = {0: "build", 1: "open", 2: "flip", 3: "update", 4: "openlast", 5: "phaseout", 6: "getremote", 7: "rbuild", 8: "ropen", 9: "ribuild", 10: "riopen"}
+    names = {0: "build", 1: "open", 2: "flip", 3: "update", 4: "openlast", 5: "phaseout", 6: "getremote", 7: "rbuild", 8: "ropen", 9: "ribuild", 10: "riopen", 11: "reseal-reserved"}
     nflip = 0
     for t, a in case.ops:
         if t == 2:
@@ -370,6 +385,12 @@ def gen(rng, tier):
                             i = rng.randrange(0, 8 * ln) if rng.random() < 0.5 else rng.randrange(0, min(8 * ln, 8 * (hl + ew + 20)))
                             ops += [(2, [i]), (4, [dl, exp, kid, hid]), (2, [i])]
                         ops.append((4, [dl, exp, kid, hid]))
+                        if rng.random() < 0.5:
+                            # a key holder sets reserved bits: connection error; tampering with THAT packet: dropped again
+                            r = rng.choice([4, 8, 12, 16, 24, 28, 3, 0x60])
+                            i = rng.randrange(0, 8 * ln)
+                            ops += [(11, [r]), (4, [dl, exp, kid, hid]), (4, [dl, exp, kid + 1, hid]), (2, [i]), (4, [dl, exp, kid, hid]), (2, [i]),
+                                    (4, [dl, exp, kid, hid]), (11, [0]), (4, [dl, exp, kid, hid])]
                     add(ops, "rt")
     # a long packet that would need a 4-byte length field: encode_varint(.., Two) asserts
     add([(0, [2, 8, 8, 0, 2, 7, 0, 16366, 0, 20000, 5, 6]), (0, [2, 8, 8, 0, 2, 7, 0, 16365, 0, 20000, 5, 6]), (4, [8, 7, 5, 6]),
@@ -392,6 +413,11 @@ def gen(rng, tier):
         for i in range(8 * ln):
             ops += [(2, [i]), (4, [dl, pn, kid, hid]), (2, [i])]
         ops.append((4, [dl, pn, kid, hid]))
+        if ph == 0 and w in (1, 3):
+            # every single-bit flip of an authentic packet whose reserved bits are set: dropped, never the connection error
+            ops += [(11, [rng.choice([8, 16, 24]) if ty == 3 else rng.choice([4, 8, 12])]), (4, [dl, pn, kid, hid])]
+            for i in range(8 * ln):
+                ops += [(2, [i]), (4, [dl, pn, kid, hid]), (2, [i])]
         add(ops, "flipall")
 
     # ---- 3. real rustls keys: Initial packets and 1-RTT packets, round trip + every single-bit flip
@@ -511,6 +537,8 @@ def mutate(rng, case, j):
             a[4] %= 5
     elif t == 2:
         a[0] = max(0, a[0] + rng.choice([-8, -1, 1, 8]))
+    elif t == 11:
+        a[0] = rng.choice([0, 4, 8, 12, 16, 24])
     elif t in (4, 8, 10):
         k = rng.randrange(len(a))
         a[k] = a[k] + rng.choice([-1, 1, 256])
